@@ -192,8 +192,13 @@ func (d *Decoder) LoadParityData() error {
 	// TODO: Support searching for volume data without relying on
 	// filenames.
 
-	// TODO: Count only files saved in volume set.
-	fileCount := d.indexVolume.header.FileCount
+	// Count only files saved in the volume set.
+	var fileCount uint64
+	for _, entry := range d.indexVolume.entries {
+		if entry.header.Status.savedInVolumeSet() {
+			fileCount++
+		}
+	}
 	maxParityVolumeCount := 256 - fileCount
 	// TODO: Support more than 99 parity volumes.
 	if maxParityVolumeCount > 99 {
